@@ -77,3 +77,18 @@ func vc_NewMysql56GTIDSetFromSIDBlock_loop2_inv(i uint64, j uint64, nSIDs uint64
 func vc_NewMysql56GTIDSetFromSIDBlock_ensures_decoded(data []byte, out Mysql56GTIDSet, err error) bool {
 	return err == nil && vcSIDOK
 }
+
+// ---- PREVIOUS_GTIDS_EVENT (MySQL 5.6): the body is a SID block ----
+
+// the reader advances the ghost vcSIDOK (hook at entry and at the end of every inner iteration)
+func vc_NewMysql56GTIDSetFromSIDBlock_modifies_ghost() { vcSIDOK = true }
+
+func vc_mysql56BinlogEvent_PreviousGTIDs_requires(ev mysql56BinlogEvent, f BinlogFormat) bool {
+	return specValidFormat(f) && len(ev.binlogEvent) >= int(f.HeaderLength) &&
+		specSIDBlockOK(ev.binlogEvent[int(f.HeaderLength):])
+}
+
+// decoding succeeds, with a set built from the intervals of the block (see the reader's contract)
+func vc_mysql56BinlogEvent_PreviousGTIDs_ensures_decoded(ev mysql56BinlogEvent, f BinlogFormat, out GTIDSet, err error) bool {
+	return err == nil && out != nil && vcSIDOK
+}
